@@ -221,7 +221,8 @@ def run(ctx, F):
                     if rts and all(any(y == ("arg", 2) for y in walk(r)) and "Not(" not in show(r) for r in rts):
                         return True
         return False
-    okp = len(clr) == 1 and (any(p.val is True for p in guards(png, clr[0][0])) or found_by_find(png, png.flow.place_tree(clr[0][1], clr[0][0], 0)))
+    okp = len(clr) == 1 and (any(p.val is True for p in guards(png, clr[0][0])) or found_by_find(png, png.flow.place_tree(clr[0][1], clr[0][0], 0)) or
+                             any(p.val in ("Continue", "Some") and found_by_find(png, p.tree) for p in guards(png, clr[0][0])))
     ctx.judge(okp, "C14.goals-under-lock", "poll_next_goal clears only the request it takes", expected="one store of false, under *requested == true (or on the entry returned by find(|r| *r))",
               found=str([(bb, guard_strs(png, bb)) for bb, _, _ in clr])[:300], where=where(png), key="C14.goals-under-lock|poll-clears-one")
     sr_ = F.fn(GOALS + "set_request")
